@@ -36,8 +36,8 @@ def isValRes (r : Res) (v : Nat) : Prop := r = .val v
 branch with `s'` replaced by the explicit successor state. -/
 macro "leaves " h:ident : tactic => `(tactic| (
   repeat' split at $h:ident
-  all_goals (try (simp only [Option.map_eq_some_iff] at $h:ident; obtain ⟨s1, h1, rfl⟩ := $h:ident;
-                  rcases panicSend_eq h1 with ⟨_, _, rfl⟩ | ⟨_, _, rfl⟩))
+  all_goals (try (simp only [Option.map_eq_some_iff] at $h:ident; obtain ⟨s1, h1, h2⟩ := $h:ident;
+                  rcases panicSend_eq h1 with ⟨_, _, h3⟩ | ⟨_, _, h3⟩ <;> subst h3 <;> subst h2))
   all_goals (try (simp only [Option.some.injEq, reduceCtorEq] at $h:ident))
   all_goals (try subst $h:ident)))
 
